@@ -15,8 +15,8 @@ CHECKS = {
         'modulus inside the stated ranges (unbounded n >= 2^63 for the '
         'algebraic kernels, all n of 6..12 bits for the bit-level one) and '
         'every path, z3 shows that any reported factor pair multiplies to n. '
-        'Soundness needs exhaustiveness over n, which only a solver verdict '
-        'gives.',
+        'Check level: 14 RSA single checks on two keys (factors recorded => product is n, key weak), also when a weakly '
+        'parameterised check object ran on the same key objects before. Soundness needs exhaustiveness over n, which only a solver verdict gives.',
         'stubs: gmpy isqrt/is_square/gcd by exact contract, LLL / pow / cube '
         'root / convergent lists havocked; bounds per job in evidence'),
  'C03': (
@@ -43,8 +43,8 @@ CHECKS = {
         'n = p*q >= 2^63 (unbounded) whose (p+q)/2 - ceil(sqrt n) equals j, for '
         'each j below the step bound K (K = 8 quick, 24 thorough, plus the last '
         'admissible step for several K), the function returns a pair at a step '
-        '<= j; conversely any returned pair lies inside the bound. Clauses 2-4 '
-        'are outside (see DESIGN).',
+        '<= j; conversely any returned pair lies inside the bound. Clause 4 plumbing: the Storage is asked for the prime size (bits+1)//2 and every top-bit variant of a listed value is tried. '
+        'Clauses 2-3 are outside (see DESIGN).',
         'gmpy isqrt/is_square by exact contract; isqrt-uniqueness lemma proved '
         'as a schema; primality not assumed'),
     'C19': (
@@ -97,7 +97,7 @@ CHECKS = {
         'also for two curves used one after the other; bits2int for every '
         'named curve, every hash value and 21 (70) hash byte lengths 0..66; '
         'ECDSAValues/PublicPoint on arbitrary byte strings incl. leading '
-        'zeros; int/bytes round trips for all x < 2^40 (2^48) and all byte strings up to 4 (5) bytes; '
+        'zeros; int/bytes round trips for all x < 2^40 and all byte strings up to 4 (6) bytes; '
         'Hex2Bytes for every hex string of up to 12 (24) digits.',
         'gmpy.invert by contract (inverse exists: n prime assumed); '
         'int.from_bytes/to_bytes modelled on lists of byte terms; fake '
@@ -183,13 +183,13 @@ CHECKS = {
         'check runs on [k1,k2], [k2] and [k2,k1] in one path with memoised '
         'contract stubs for the numeric kernels; z3 decides equality of '
         'entries and attached factors across the three runs',
-        'Bounded symbolic model checking of the plumbing: for 13 RSA single '
-        'checks (18 constructor variants incl. custom pattern-size lists and '
+        'Bounded symbolic model checking of the plumbing: for 14 RSA single checks (19 constructor variants incl. custom pattern-size lists and '
         'Storage) and symbolic moduli of two different sizes, the verdict, '
         'severity and recorded factors of a key are identical alone, in a '
-        'batch, at either position, with the same check object used three '
-        'times. EC table history is covered by C10; aggregate GCD plumbing '
-        'by C03.',
+        'batch, at either position, with the same check object used three times and on fresh check objects (no history); '
+        'the three EC single checks on two keys over supported, unknown and binary curve identifiers, and three ECDSA '
+        'signature checks on one signature per curve on two curves, alone / after / before the other, each on a fresh object. '
+        'EC table history is covered by C10; aggregate GCD plumbing by C03.',
         'kernels are deterministic functions of their arguments (memoised '
         'outcome variables); counterexamples confirmed by a concrete '
         'differential oracle over witness moduli with the real kernels'),
